@@ -59,9 +59,10 @@ Definition table : list (string * (sx -> sx)) := [
   ("link.lib_flags", fun a => sx_list sx_ltok (lib_flags (un_libs (nth_sx 0 a))));
   ("link.rpaths", fun a => let p := nth_sx 0 a in
       sx_opt (sx_list sx_str) (p_rpaths (pj_ms p) (pj_mt p) (pj_nodes p) (un_bool (nth_sx 1 a)) (un_nat (nth_sx 2 a))));
-  (* [project; root libs; line] *)
+  (* [project; root libs; line; as_needed] *)
   ("ld.links", fun a => let p := nth_sx 0 a in
-      sx_bool (p_ld_links (pj_ms p) (pj_mt p) (pj_nodes p) (un_libs (nth_sx 1 a)) (un_libs (nth_sx 2 a))));
+      sx_bool (p_ld_links (pj_ms p) (pj_mt p) (pj_nodes p) (un_bool (nth_sx 3 a)) (un_libs (nth_sx 1 a))
+                          (un_libs (nth_sx 2 a))));
   ("dedup.first", fun a => sx_libs (dedup_first (un_libs (nth_sx 0 a))));
   ("dedup.last", fun a => sx_libs (dedup_last (un_libs (nth_sx 0 a))));
   (* [libdir components; outdir components] *)
